@@ -3,6 +3,7 @@ package main
 // Calls: contracts, inlining, builtins, havoc; inferred modifies sets.
 
 import (
+	"os"
 	"fmt"
 	"go/token"
 	"go/types"
@@ -16,6 +17,9 @@ type ModSet struct {
 	All   bool
 	Names map[string]bool
 	Pfx   []string
+	// parameters whose (function-valued) argument's effects belong to the set; resolved per call site by closureArgMods,
+	// and equivalent to All wherever they are not resolved
+	ClosureParams []string
 }
 
 func (m *ModSet) has(n string) bool {
@@ -33,7 +37,7 @@ func (m *ModSet) has(n string) bool {
 func newModSet() *ModSet { return &ModSet{Names: map[string]bool{}} }
 
 func (m *ModSet) add(o *ModSet) {
-	if o.All {
+	if o.All || len(o.ClosureParams) > 0 {
 		m.All = true
 	}
 	for n := range o.Names {
@@ -178,12 +182,88 @@ func (g *Gen) callMods(fc *FnCtx, caller *ssa.Function, c *ssa.CallCommon) *ModS
 		}
 		return ms
 	case *ssa.Function:
-		return g.fnMods(fc, v)
+		return g.closureArgMods(fc, v, c, g.fnMods(fc, v))
 	case *ssa.MakeClosure:
 		return g.fnMods(fc, v.Fn.(*ssa.Function))
+	case *ssa.Parameter:
+		// a call through a function-valued parameter that has its own contract (caller.param)
+		if caller != nil {
+			if sp := g.specs.Funcs[fnName(caller)+"."+v.Name()]; sp != nil && sp.HasMod {
+				g.specMods(fc, sp, ms)
+				return ms
+			}
+		}
 	}
 	ms.All = true
 	return ms
+}
+
+// closureArgMods resolves the "closure PARAM" entries of callee's modifies clause at one call site: a function
+// literal passed for PARAM contributes the set inferred from its body, anything else makes the set unknown.
+func (g *Gen) closureArgMods(fc *FnCtx, callee *ssa.Function, c *ssa.CallCommon, ms *ModSet) *ModSet {
+	if len(ms.ClosureParams) == 0 {
+		return ms
+	}
+	out := newModSet()
+	out.All = ms.All
+	for n := range ms.Names {
+		out.Names[n] = true
+	}
+	for _, p := range ms.Pfx {
+		out.addPfx(p)
+	}
+	for _, pn := range ms.ClosureParams {
+		found := false
+		for i, p := range callee.Params {
+			if p.Name() != pn || i >= len(c.Args) {
+				continue
+			}
+			found = true
+			av := c.Args[i]
+			for {
+				// look through conversions between function types
+				if ct, ok := av.(*ssa.ChangeType); ok {
+					av = ct.X
+					continue
+				}
+				break
+			}
+			switch a := av.(type) {
+			case *ssa.MakeClosure:
+				cm := g.closureArgMods(fc, a.Fn.(*ssa.Function), &ssa.CallCommon{}, g.fnMods(fc, a.Fn.(*ssa.Function)))
+				if os.Getenv("ZVC_DEBUG_LOOPS") != "" && cm.All {
+					cf := a.Fn.(*ssa.Function)
+					for _, bb := range cf.Blocks {
+						for _, in := range bb.Instrs {
+							one := newModSet()
+							g.instrMods(fc, cf, in, one)
+							if one.All {
+								fmt.Fprintf(os.Stderr, "   closure %s ALL from: %s\n", cf.Name(), in.String())
+							}
+						}
+					}
+				}
+				out.add(cm)
+			case *ssa.Function:
+				out.add(g.fnMods(fc, a))
+			default:
+				if os.Getenv("ZVC_DEBUG_LOOPS") != "" {
+					fmt.Fprintf(os.Stderr, "   closure arg for %s is %T %s\n", pn, a, a.String())
+				}
+				out.All = true
+			}
+		}
+		if !found {
+			if os.Getenv("ZVC_DEBUG_LOOPS") != "" {
+				fmt.Fprintf(os.Stderr, "   closure param %s not found in %s\n", pn, callee.Name())
+			}
+			out.All = true
+		}
+	}
+	if out.All {
+		return out
+	}
+	return out
 }
 
 type pointMod struct {
@@ -307,6 +387,11 @@ func (g *Gen) specModsP(fc *FnCtx, sp *FuncSpec, ms *ModSet, includePoint bool) 
 		}
 		if e == "*" {
 			ms.All = true
+			continue
+		}
+		if strings.HasPrefix(e, "closure ") {
+			// effects of a function-valued parameter: resolved per call site (closureArgMods); unknown here
+			ms.ClosureParams = append(ms.ClosureParams, strings.TrimSpace(e[8:]))
 			continue
 		}
 		if e == "elems(*)" {
@@ -1040,6 +1125,13 @@ func (fr *Frame) applyContract(sp *FuncSpec, fn *ssa.Function, name string, pnam
 	ms := newModSet()
 	if sp.HasMod {
 		fc.g.specModsP(fc, sp, ms, false)
+		if len(ms.ClosureParams) > 0 {
+			if ci, ok := in.(ssa.CallInstruction); ok && fn != nil {
+				ms = fc.g.closureArgMods(fc, fn, ci.Common(), ms)
+			} else {
+				ms.All = true
+			}
+		}
 	} else if fn != nil && fn.Blocks != nil && !sp.Trusted {
 		ms = fc.g.fnMods(fc, fn)
 	} else if !sp.Trusted {
